@@ -108,7 +108,15 @@ def handleCalls (j : Json) : Except String Json := do
     let time ← getInt cj "time"
     let prevL ← parsePrev cj
     let prev : String → Option (Float × Float) := fun sid => prevL.lookup sid
-    let o := scheduleCall feas cfg infra period time prev rd raw
+    -- the network may have been changed under the same constraint names between calls
+    -- (`update_constraint`): a call can carry its own matrix / limits
+    let feasC ← match cj.getObjVal? "net" with
+      | .ok nj => do
+          let M' ← getFss nj "M"
+          let l' ← getFs nj "lims"
+          pure (Acn.Feas.algFeasible M' l' c s vt rt)
+      | .error _ => pure feas
+    let o := scheduleCall feasC cfg infra period time prev rd raw
     rd := o.rd
     let common : List (String × Json) :=
       [("pre", jList jSess o.pre), ("order", jList (fun (x : Session Float) => jS x.session) o.order),
